@@ -232,6 +232,8 @@ func c18Run(f []string) string {
 		return fmt.Sprintf("ok unix=%d", time.Date(w.Year(), w.Month(), w.Day(), w.Hour(), w.Minute(), w.Second(), 0, z.loc).Unix())
 	case "ztime": // ztime fmt zone str table
 		return c18One("time", 3, []string{hs(1), hs(2)}, hs(3))
+	case "zh": // zh fn a1 zone table args: one compiled stage over a history (c18hist.go)
+		return c18RunHist(f)
 	case "cal": // reference calendar against Go's own (no rare code involved)
 		days, _ := strconv.ParseInt(f[1], 10, 64)
 		t := time.Unix(days*86400, 0).UTC()
@@ -789,6 +791,20 @@ func c18Gen(r *Rand, tier string) []string {
 		}
 	}
 
+	// histories on ONE compiled timeattr / timeformat / time stage around the zone's transitions (table model, no oracle)
+	nh := 600
+	if tier == "thorough" {
+		nh = 30000
+	}
+	for i := 0; i < nh; i++ {
+		z := c18Zones[7+r.Intn(23)]
+		if z.ok {
+			if c := c18HistCase(r, z); c != "" {
+				add(c)
+			}
+		}
+	}
+
 	// reference calendar against Go's calendar, no rare code involved
 	nc := 1500
 	if tier == "thorough" {
@@ -1164,6 +1180,9 @@ func c18Stats(cases []string) map[string]int {
 		st["op."+f[0]]++
 		switch f[0] {
 		case "seqe", "seqpar", "kw", "cc":
+			continue
+		case "zh":
+			c18HistStats(f, st)
 			continue
 		case "zone", "ztime":
 			if f[0] == "zone" {
